@@ -9,6 +9,7 @@ from .. import astq
 from ..fold import Folder, RegexConst, Unfoldable, classes_in, single_class
 from ..loader import AnalysisError, FuncInfo, dotted, norm, walk_no_nested
 from ..report import Ctx
+from ._shared import optional_int_rule
 
 LEVEL_TEXT = (
     "Static decision of the quoting layer and framing constants behind C06: (R6.1) the alphabet that quote_header_value "
@@ -89,18 +90,30 @@ def run(ctx: Ctx) -> None:
     q = repo.func("http.quote_header_value")
     ctx.saw(q)
     sup = [c for c in astq.method_calls(q.node, "issuperset")]
-    if len(sup) != 1:
-        raise AnalysisError("quote_header_value: expected exactly one .issuperset(...) (bare-token test)")
-    recv = sup[0].func.value  # type: ignore[attr-defined]
-    tname = dotted(recv)
-    # follow one local alias: token_chars = _token_chars
-    for _, v in astq.assigns_to(q.node, tname or ""):
-        if v is not None and dotted(v):
-            tname = dotted(v)
-    T = folder.name(http, tname or "")
-    if not isinstance(T, (set, frozenset)):
-        raise AnalysisError(f"{tname} does not fold to a set")
-    T = frozenset(T)
+    rxsup = [c for c in astq.method_calls(q.node, "fullmatch") + astq.method_calls(q.node, "match") + astq.method_calls(q.node, "search")]
+    if len(sup) == 1 and not rxsup:
+        recv = sup[0].func.value  # type: ignore[attr-defined]
+        tname = dotted(recv)
+        # follow one local alias: token_chars = _token_chars
+        for _, v in astq.assigns_to(q.node, tname or ""):
+            if v is not None and dotted(v):
+                tname = dotted(v)
+        T = folder.name(http, tname or "")
+        if not isinstance(T, (set, frozenset)):
+            raise AnalysisError(f"{tname} does not fold to a set")
+        T = frozenset(T)
+    elif len(rxsup) == 1 and not sup:
+        # regex form of the same test: the bare alphabet is the class of the pattern (must be a full match)
+        sup = rxsup
+        tname = dotted(sup[0].func.value)  # type: ignore[attr-defined]
+        rxv = folder.name(http, tname or "")
+        if not isinstance(rxv, RegexConst):
+            raise AnalysisError(f"{tname} does not fold to a regex")
+        cls_, rep_ = single_class(rxv, 0x3000)
+        T = frozenset(chr(c) for c in cls_)
+        ctx.ob("R6.1", "bare-token regex test is a full match", sup[0].func.attr == "fullmatch", f"{tname}.{sup[0].func.attr}(...)", q, sup[0], "bare test fullmatch")  # type: ignore[attr-defined]
+    else:
+        raise AnalysisError("quote_header_value: expected exactly one bare-token test (.issuperset(...) or <regex>.fullmatch(...))")
     # the bare return is guarded by the superset test and returns the string unchanged
     guard_if = astq.enclosing(sup[0], (ast.If,))
     bare_ok = isinstance(guard_if, ast.If) and any(isinstance(s, ast.Return) and isinstance(s.value, ast.Name) for s in guard_if.body)
@@ -217,6 +230,8 @@ def run(ctx: Ctx) -> None:
         n64 += 1
         ctx.ob("R6.4", f"{desc} parser stores value + 1", offs == [1], f"offsets applied to `{var}`: {offs}", f, f.node, "parser offset")
     ctx.floor("R6.4", "offset sites", n64, 5)
+    for cn in ("ContentRange", "Range"):
+        optional_int_rule(ctx, "R6.4", repo.cls(f"datastructures.range.{cn}"))
 
     # ---------------- R6.5 separators -------------------------------------
     dc = repo.func("http.dump_csp_header")
